@@ -12,7 +12,9 @@ REG = dict(
 )
 TEXT = dict(
     level="Universal Lean theorems on the band model (any sample with ties, any bounds, any level table, every t): band cdf = level "
-          "indexed by the count of extended sample points <= t (so no mass outside [a,b], 0 below a, 1 from b on); level-wise "
+          "indexed by the count of extended sample points <= t; no mass below a or above b for every table; the lower band is 0 below the "
+          "smallest observation and the upper band is 1 from the largest observation on (the dkw/ks tables meet the two hypotheses L_0 = 0, "
+          "U_n = 1 for every eps >= 0); eps <= eps' nests the dkw/ks bands at every t; pt is the band with table i/n and lo <= pt <= hi; level-wise "
           "ordered tables give pointwise ordered cdfs (bracket, widening); invariance under permutations and under strictly "
           "increasing maps of sample, bounds and query; F <= G implies Q_G <= Q_F for arbitrary distribution functions (tuning-curve "
           "band inversion, any CDF inside the band). Tied to the code per run: all four methods, every band cdf at every atom/"
